@@ -9,6 +9,8 @@
    to bind exactly that endpoint. An explicit tcp:// or ipc:// target is passed
    through unchanged, a target that matches nothing fails the configuration, and
    two different endpoints claiming the same global alias are rejected."
+  — and all of it whatever else the task template declares in its `properties:` block
+  (section "the whole property map": `SpecPW`, the predicate the Driver evaluates).
 -/
 import ControlModel.Model.Channels
 
@@ -184,6 +186,89 @@ instance (tasks : List Task) : Decidable (WF tasks) := by
 def findName {α} (name : α → String) (n : String) (l : List α) : Option α := l.find? fun c => name c == n
 
 
+/-! ## the whole property map: "…whatever else the template declares"
+
+  The executor receives ONE map: the common properties, the `properties:` block of the task
+  template and the generated channel keys. The clauses above are evaluated on what that map says
+  about each declared channel (`view`: `chans.<n>.0.{method,address,transport}` read back), so a
+  declared property that takes the place of a generated key is seen as what it is — the channel
+  is told to bind / connect there. `Delivered` adds what the property promises about the rest:
+  every other generated key of a configured channel carries the channel's own declaration, and
+  every declared property that is not a key of one of the task's channels arrives unchanged. -/
+
+def Method.parse? : String → Option Method
+  | "bind" => some .bind | "connect" => some .connect | _ => none
+
+/-- What a property map tells the executor about channel `n`. -/
+def readEntry (pm : PMap) (n : String) : Option Entry :=
+  match Assoc.get pm (.chan n .method), Assoc.get pm (.chan n .address), Assoc.get pm (.chan n .transport) with
+  | some m, some a, some tr =>
+      match Method.parse? m, Transport.parse? tr with
+      | some m, some tr => some ⟨m, a, tr⟩
+      | _, _ => none
+  | _, _, _ => none
+
+/-- Names of the channels a task declares (bind, then connect). -/
+def chanNames (t : Task) : List String := t.inbound.map Inbound.name ++ t.outbound.map Outbound.name
+
+/-- The channel entries of a task as its property map has them. -/
+def view (t : Task) (pm : PMap) : Props :=
+  (chanNames t).filterMap fun n => (readEntry pm n).map fun e => (n, e)
+
+def viewAll (tasks : List Task) (pms : List PMap) : List Props := List.zipWith view tasks pms
+
+/-- `k` is a key of one of the task's own channels (`chans.<n>.…` for a declared channel `n`). -/
+def ownsKey (t : Task) : Key → Bool
+  | .chan n _ => (chanNames t).contains n
+  | .sockets n => (chanNames t).contains n
+  | .other _ => false
+
+/-- The generated keys of channel `n` other than method / address / transport carry the channel's
+    own declaration (`meth` selects `autoBind`, written for inbound channels only). -/
+def miscOk (pm : PMap) (n : String) (meth : Method) (m : Misc) : Prop :=
+  Assoc.get pm (.sockets n) = some "1" ∧
+  ∀ f ∈ fieldsOf meth, f ≠ .address → f ≠ .transport →
+    Assoc.get pm (.chan n f) = some (fieldVal m ⟨meth, "", .default⟩ f)
+
+instance (pm : PMap) (n : String) (meth : Method) (m : Misc) : Decidable (miscOk pm n meth m) := by
+  unfold miscOk; exact inferInstance
+
+/-- An inbound channel that `Inbound.ToFMQMap` configures: no target, or an explicit one (a target
+    that is neither is dropped from the configuration — part of the recorded finding). -/
+def configurable (c : Inbound) : Bool := c.target.isEmpty || explicit c.target
+
+/-- Clause 5: the rest of the map. -/
+def Delivered (tasks : List Task) (pms : List PMap) : Prop :=
+  ∀ p ∈ tasks.zip pms,
+    (∀ c ∈ p.1.inbound, configurable c = true → miscOk p.2 c.name .bind c.misc) ∧
+    (∀ o ∈ p.1.outbound, miscOk p.2 o.name .connect o.misc) ∧
+    (∀ kv ∈ p.1.props, ownsKey p.1 kv.1 = false → Assoc.get p.2 kv.1 = some kv.2)
+
+instance (tasks : List Task) (pms : List PMap) : Decidable (Delivered tasks pms) := by
+  unfold Delivered; exact inferInstance
+
+/-- Spec of one CONFIGURE outcome given as the whole property map of every task. -/
+def SpecPW (emptyTarget locAliases : Bool) (tasks : List Task) : Except Err (List PMap) → Prop
+  | .ok pms => pms.length = tasks.length ∧ SpecW emptyTarget locAliases tasks (.ok (viewAll tasks pms)) ∧
+      Delivered tasks pms
+  | .error e => SpecW emptyTarget locAliases tasks (.error e)
+
+instance (a b : Bool) (tasks : List Task) (r : Except Err (List PMap)) : Decidable (SpecPW a b tasks r) := by
+  unfold SpecPW; split <;> exact inferInstance
+
+abbrev SpecP (tasks : List Task) (r : Except Err (List PMap)) : Prop := SpecPW false false tasks r
+
+/-- Keys of a `properties:` block are distinct (a YAML mapping). -/
+def propsDistinct (t : Task) : Prop := (t.props.map (·.1)).Nodup
+
+instance (t : Task) : Decidable (propsDistinct t) := by
+  unfold propsDistinct; exact inferInstance
+
+def WFP (tasks : List Task) : Prop := WF tasks ∧ ∀ t ∈ tasks, propsDistinct t
+
+instance (tasks : List Task) : Decidable (WFP tasks) := by
+  unfold WFP; exact inferInstance
+
 /-! ## workflows with iterators: the Spec is evaluated against the template AS WRITTEN
 
   "every outbound channel whose target names another role's channel …": in a
@@ -230,6 +315,17 @@ instance (a b : Bool) (classes : List (String × Class)) (root : TForest) (launc
   unfold SpecTW; exact inferInstance
 
 abbrev SpecT := SpecTW false false
+
+/-- The same over the whole property maps. -/
+def SpecTPW (a b : Bool) (classes : List (String × Class)) (root : TForest) (launch : List (String × String × BindMap))
+    (seen : List SeenDecl) (r : Except Err (List PMap)) : Prop :=
+  ResolvedAsWritten root seen ∧ SpecPW a b (templateTasks classes root launch) r
+
+instance (a b : Bool) (classes : List (String × Class)) (root : TForest) (launch : List (String × String × BindMap))
+    (seen : List SeenDecl) (r : Except Err (List PMap)) : Decidable (SpecTPW a b classes root launch seen r) := by
+  unfold SpecTPW; exact inferInstance
+
+abbrev SpecTP := SpecTPW false false
 
 
 end Channels
